@@ -497,6 +497,11 @@ conn_check_abandon(const char * why)
 
 	if (c < 0 || CN.concluded[c])
 		return;
+	if (AF_SINCE(CN.af0)) {
+		/* a fatal (out-of-memory) error inside the request: it may give up at once */
+		CN.concluded[c] = 1;
+		return;
+	}
 	if (CN.vs[c] != NULL && CN.vs[c]->cstate == 3) {
 		/* the kernel concluded this attempt with an error */
 		CN.concluded[c] = 1;
